@@ -79,6 +79,9 @@ def run(rep: core.Report):
     _r17n(rep)
     _r17p(rep)
     _r17r(rep)
+    from rules import shared_sibperm
+
+    shared_sibperm.run_rescale(rep, "R17s", [CALC], 1)
     from rules import shared_trunc
 
     shared_trunc.run_int_calls(rep, "R17q", sorted(os.path.relpath(f_, core.REPO) for f_ in _glob17.glob(str(core.REPO / "phonopy/interface/*.py"))))
@@ -1185,6 +1188,8 @@ def selftest():
     V = []
     b = lambda name, file, old, new, rule, expect="", **kw: V.append(dict(name=name, kind="break", file=file, old=old, new=new, rule=rule, expect=expect, **kw))
     n = lambda name, file, old, new, **kw: V.append(dict(name=name, kind="neutral", file=file, old=old, new=new, **kw))
+    b("structure conversion rescales the Cartesian positions after the lattice", CALC, "    cell.cell = cell.cell * factor\n", "    cell.cell = cell.cell * factor\n    cell.positions = cell.positions * factor\n", "R17s", "convert_crystal_structure")
+    n("structure conversion rescales through a local lattice", CALC, "    cell.cell = cell.cell * factor\n", "    lattice = cell.cell\n    cell.cell = lattice * factor\n")
     b("conversion divides by the table entry of the file's unit", CALC, "        factor = factor_to_eVperA2[_unit] / factor_to_eVperA2[default_unit]", "        factor = factor_to_eVperA2[default_unit] / factor_to_eVperA2[_unit]", "R17r", "get_force_constant_conversion_factor")
     n("conversion written as a product with the reciprocal", CALC, "        factor = factor_to_eVperA2[_unit] / factor_to_eVperA2[default_unit]", "        factor = factor_to_eVperA2[_unit] * (1.0 / factor_to_eVperA2[default_unit])")
     b("SIESTA reader writes parsed tags into the class-level dictionary", "phonopy/interface/siesta.py", "        self._tags = self._tags.copy()\n", "", "R17o", "SiestaIn")
